@@ -124,7 +124,7 @@ def never_issued_sid(rng):
 def gen_history(rng, tier, flavour=None):
     """returns (lines, judged) — judged False for histories with backward clock moves"""
     loc = rng.choice(("client", "server", "server", "both", "both"))
-    kind = rng.choice(("memory", "files"))
+    kind = rng.choice(("memory", "memory", "files", "files", "network"))
     how = rng.randrange(3)
     timeout = rng.choice((10, 20, 50, 100, 100, 3600))
     limit = rng.choice((20, 30, 60, 2048))
@@ -192,7 +192,7 @@ def special_histories(tier):
                       "req 0 1020 jar", "req 0 1120 jar", "req 0 1121 jar"])
     # fixed: never rewritten when unchanged, deadline kept when changed, alive at the deadline, dead one later
     for loc in ("server", "client", "both"):
-        for kind in ("memory", "files"):
+        for kind in ("memory", "files", "network"):
             H.append([f"new {loc} {kind} 0 50 2048", "req 0 1000 jar set:6b:76 expose:6b", "req 0 1030 jar", "req 0 1040 jar set:61:62",
                       "req 0 1050 jar", "req 0 1051 jar", "req 0 1052 jar set:6b:77"])
     # key / value limits of the packed header
@@ -210,12 +210,13 @@ def special_histories(tier):
     # clear on a session that only exists client-side; replay of the old client cookie (inherent to client storage)
     H.append(["new both memory 1 100 2048", "req 0 1000 jar set:6b:76", "req 0 1001 jar clear", "req 9 1002 old:0", "req 9 1102 old:0"])
     # short_gc: more than five expired sessions, collected five at a time
-    h = ["new server memory 1 10 2048"] + [f"req {b} {1000 + b} jar set:6b:{b:02x}" for b in range(8)]
-    h += ["req 8 2000 jar set:6b:76", "req 8 2001 jar set:6b:77", "req 8 2002 jar clear", "req 8 2003 jar"]
-    H.append(h)
+    for kind in ("memory", "network"):
+        h = [f"new server {kind} 1 10 2048"] + [f"req {b} {1000 + b} jar set:6b:{b:02x}" for b in range(8)]
+        h += ["req 8 2000 jar set:6b:76", "req 8 2001 jar set:6b:77", "req 8 2002 jar clear", "req 8 2003 jar"]
+        H.append(h)
     # path-like and malformed identifiers
     pl = (b"I../../etc/passwd" + b"0" * 16).hex()
-    for kind in ("memory", "files"):
+    for kind in ("memory", "files", "network"):
         H.append([f"new server {kind} 1 100 2048", f"req 9 1000 raw:{pl}", f"req 9 1001 raw:{pl} set:6b:76", "req 9 1002 jar",
                   f"req 9 1003 raw:{pl} clear", "req 9 1004 raw:" + (b"I" + b"f" * 32).hex() + " set:6b:76", "req 9 1005 raw:" + (b"I" + b"f" * 32).hex()])
     # stale working values after clear() (documented quirk: deadline from the stale age, next request reads the default)
@@ -347,7 +348,7 @@ def main():
     global OBLIGATIONS
     c = Check("C06")
     OBLIGATIONS = load_obligations()
-    c.rule = ("cases = request lines of histories (new <location> <storage> <expire> <timeout> <client_size_limit>; then "
+    c.rule = ("cases = request lines of histories (new <location> <storage: memory|files|network> <expire> <timeout> <client_size_limit>; then "
               "req <browser> <now> <cookie: jar|none|raw|old|steal> <ops>): hand-written boundary histories (10 % window, deadline, "
               "packed limits, location=client+on_server, non-numeric _t/_h/_s, size switch + reset, short_gc > 5, path-like ids), corpus, "
               "random histories of 1..3 browsers + an attacker, 1..36 requests, op mix set/erase/clear/expose/hide/age/default_age/"
@@ -362,7 +363,7 @@ def main():
         "double comparison `delta < timeout_val_*0.1` equals the exact rational comparison for |timeout_val_| < 2^31 (argument in design.d/C06.md), boundary cases in the corpus",
         "externals as parameters: encryptor+base64 (enc/dec with dec∘enc = id and forged ⇒ none; C05), OS entropy (Fresh), num_put/num_get of int (readInt∘showInt = id), std::map/std::string",
         "correspondence harness harness/c06.cpp (ASan+UBSan build of the working tree; real session_pool/session_interface/session_sid/session_dual/"
-        "session_cookies with the hmac encryptor, real memory and file storages behind a logging decorator; virtual clock by interposed time())",
+        "session_cookies with the hmac encryptor, real memory / file / tcp storages behind a logging decorator; virtual clock by interposed time())",
     ]
     c.assumptions += [
         "Fresh: identifiers from get_new_sid are pairwise distinct and distinct from attacker-chosen strings (unpredictability is not expressible: partial)",
@@ -370,7 +371,7 @@ def main():
         "readInt (showInt n) = some n for the numbers the interface writes itself",
         "clock is monotone across requests for the 'never after it ended' clause (backward moves revive sessions a storage has not collected yet)",
         "no 32-bit overflow in ages/clock (|values| < 2^30)",
-        "network (tcp) storage not exercised; file storage only through the session_storage interface",
+        "network storage = session_tcp_storage against an in-process tcp_cache_service over a memory storage (modelled as the memory storage); file storage only through the session_storage interface",
     ]
     scale = 5 if c.tier == "thorough" else 1
 
